@@ -506,8 +506,11 @@ func (r *requestSender) Send(writer io.Writer) error {
 		frm.Header.StreamId = r.stream
 		return r.conn.codec.EncodeFrame(frm, writer)
 	case *frame.RawFrame:
-		frm.Header.StreamId = r.stream
-		return r.conn.codec.EncodeRawFrame(frm, writer)
+		// Encode a copy of the header: a cached `PREPARE` frame is shared by every connection that re-prepares it, so the
+		// stream ID must not be written into the shared frame.
+		hdr := *frm.Header
+		hdr.StreamId = r.stream
+		return r.conn.codec.EncodeRawFrame(&frame.RawFrame{Header: &hdr, Body: frm.Body}, writer)
 	default:
 		return errors.New("unhandled frame type")
 	}
